@@ -4,7 +4,7 @@ import io
 import itertools
 import re
 
-from cutplace import interface, sql
+from cutplace import errors, interface, sql
 
 from common import B, L, O, S, Zn, P
 
@@ -49,7 +49,7 @@ def field_row(f):
     kind = f["kind"]
     name, empty = f["name"], ("X" if f["empty"] else "")
     if kind == "int":
-        return ["F", name, "", empty, "", "Integer", "%d...%d" % (f["lo"], f["hi"])]
+        return ["F", name, "", empty, "", "Integer", int_rule(f)]
     if kind == "dec":
         return ["F", name, "", empty, "", "Decimal", "%s...%s" % (f["lo"], f["hi"])]
     if kind == "date":
@@ -59,6 +59,23 @@ def field_row(f):
     if kind == "choice":
         return ["F", name, "", empty, f["length"], "Choice", "red, green"]
     raise ValueError(kind)
+
+
+def int_rule(f):
+    """the bounded range lo...hi, written as one item or - "parts" - as several items in some order whose overall
+    limits are lo and hi (the column must store both whatever way the rule spells the range)"""
+    lo, hi = f["lo"], f["hi"]
+    parts = f.get("parts")
+    if not parts or hi - lo < 4:
+        return "%d...%d" % (lo, hi)
+    mid = lo + (hi - lo) // 2
+    if parts == "inner-first":       # a small item first, then one that reaches beyond it at both ends
+        return "%d...%d, %d...%d" % (mid, mid + 1, lo, hi)
+    if parts == "descending":
+        return "%d...%d, %d...%d" % (mid + 1, hi, lo, mid - 1)
+    if parts == "three":
+        return "%d, %d...%d, %d" % (mid, mid + 2, hi, lo)
+    return "%d...%d, %d...%d" % (lo, mid - 1, mid + 1, hi)
 
 
 def dec_digits(lit):
@@ -126,7 +143,13 @@ def parse(statement):
 def make_case(inp):
     dname, fields = inp
     try:
-        text = ddl(dname, fields)
+        try:
+            text = ddl(dname, fields)
+        except errors.InterfaceError:
+            # a rule whose later item reaches around an earlier one may be refused as overlapping: then the plain spelling counts
+            if not any(f.get("parts") == "inner-first" for f in fields):
+                raise
+            text = ddl(dname, [dict(f, parts=None) for f in fields])
         cols = parse(text)
         obs = {"columns": cols, "ddl": text if cols is None else None}
     except Exception as e:
@@ -207,6 +230,9 @@ def gen_inputs(tier, rnd):
     for dname, _ in DIALECTS:
         for lo, hi in itertools.combinations_with_replacement(BOUNDS, 2):
             yield [dname, [{"kind": "int", "name": "n", "empty": False, "lo": lo, "hi": hi}]]
+            if (lo + hi) % 3 == 0:
+                for parts in ("inner-first", "descending", "three", "ascending"):
+                    yield [dname, [{"kind": "int", "name": "n", "empty": False, "lo": lo, "hi": hi, "parts": parts}]]
     # keyword pool: every name alone under every dialect
     for dname, _ in DIALECTS:
         for nm in NAMES:
